@@ -17,9 +17,9 @@ def run(prog, tier, res):
     res.trusted = ["spec table tables/spec/c18.json transcribed from the property statement", "the embedded drift table satisfies what the existing unit tests assert (ordering, positivity)"]
     R1 = res.rule("C18.R1", "range guards with strictness and error variants; slice choice = first upper bound >= |z|; bracket search, last-knot fallback, linear interpolation lhs + f*(rhs-lhs); phi - correction", 3)
     R2 = res.rule("C18.R2", "z-symmetry as non-interference: z only through abs() or the error payload", 1)
-    check_fn_tables(prog, res, R1, spec["functions"], alias=alias)
+    check_fn_tables(prog, res, R1, spec["functions"], alias=alias, quantified=True)
     # non-interference
-    tab = accept.ret_table(prog, TABLES_AT, alias=alias)
+    tab = accept.ret_table(prog, TABLES_AT, alias=alias, quantified=True)
     bad = []
     for atoms, val in tab:
         for s in atoms + [val]:
